@@ -116,6 +116,7 @@ enum Effect {
     XSel(Opnd, bool, bool, Vec<Opnd>),
     XStale(Opnd),
     XInval(Opnd),
+    DropVar(usize),
 }
 
 #[derive(Clone, Debug)]
@@ -273,6 +274,7 @@ fn parse_effect(t: &[&str]) -> Option<Effect> {
         ["updvar", v, d] => Some(Effect::UpdVar(idx("v", v)?, d.parse().ok()?)),
         ["replvar", v, x] => Some(Effect::ReplVar(idx("v", v)?, parse_val(x)?)),
         ["replwvar", v, d] => Some(Effect::ReplWVar(idx("v", v)?, d.parse().ok()?)),
+        ["dropvar", v] => Some(Effect::DropVar(idx("v", v)?)),
         ["readobs", o] => Some(Effect::ReadObs(idx("o", o)?)),
         ["stab"] => Some(Effect::Stab),
         ["panic"] => Some(Effect::Panic),
@@ -379,7 +381,9 @@ pub struct Ctx {
     deps: RefCell<Vec<Option<Dependency<V>>>>,
     vars: RefCell<Vec<Option<Var<V>>>>,
     var_handles: RefCell<Vec<usize>>,
-    observers: RefCell<Vec<Vec<Observer<V>>>>,
+    observers: RefCell<Vec<Vec<Ob>>>,
+    /// creation index of a typed node ↦ how to observe it
+    typed: RefCell<HashMap<usize, Rc<dyn Fn() -> Ob>>>,
     tokens: RefCell<Vec<SubscriptionToken>>,
 }
 
@@ -393,6 +397,61 @@ pub struct ExpertHandle {
 }
 
 type C = Rc<Ctx>;
+
+/// an observer on a node whose value is not a `V` (the typed input node of a map operator), read back as a `V`
+trait AnyObs {
+    fn read(&self) -> Result<V, incremental::ObserverError>;
+    fn disallow(&self);
+}
+struct TypedObs<T: incremental::Value> {
+    ob: Observer<T>,
+    back: Rc<dyn Fn(&T) -> V>,
+}
+impl<T: incremental::Value> AnyObs for TypedObs<T> {
+    fn read(&self) -> Result<V, incremental::ObserverError> {
+        self.ob.try_get_value().map(|t| (self.back)(&t))
+    }
+    fn disallow(&self) {
+        self.ob.disallow_future_use()
+    }
+}
+#[derive(Clone)]
+enum Ob {
+    V(Observer<V>),
+    T(Rc<dyn AnyObs>),
+}
+impl Ob {
+    fn try_get_value(&self) -> Result<V, incremental::ObserverError> {
+        match self {
+            Ob::V(o) => o.try_get_value(),
+            Ob::T(o) => o.read(),
+        }
+    }
+    fn disallow_future_use(&self) {
+        match self {
+            Ob::V(o) => o.disallow_future_use(),
+            Ob::T(o) => o.disallow(),
+        }
+    }
+    fn as_v(&self) -> Option<Observer<V>> {
+        match self {
+            Ob::V(o) => Some(o.clone()),
+            Ob::T(_) => None,
+        }
+    }
+}
+
+fn register_typed<T: incremental::Value>(ctx: &C, a: &Incr<T>, back: impl Fn(&T) -> V + 'static) {
+    let weak = a.weak();
+    let back: Rc<dyn Fn(&T) -> V> = Rc::new(back);
+    ctx.typed.borrow_mut().insert(
+        a.verif_index(),
+        Rc::new(move || {
+            let a = weak.upgrade().expect("typed node gone");
+            Ob::T(Rc::new(TypedObs { ob: a.observe(), back: back.clone() }))
+        }),
+    );
+}
 
 fn expert(ctx: &C, n: usize) -> Option<Rc<ExpertHandle>> {
     ctx.experts.borrow().get(&n).cloned()
@@ -471,6 +530,9 @@ fn run_effects(ctx: &C, effs: &[Effect]) {
 fn run_effects_arg(ctx: &C, effs: &[Effect], arg: i64) {
     for e in effs {
         match e {
+            // a closure writes through the handle it owns: after `dropvar` there is nothing to write through
+            Effect::SetVar(v, _) | Effect::ModVar(v, _) | Effect::UpdVar(v, _) | Effect::ReplVar(v, _) | Effect::ReplWVar(v, _)
+                if ctx.vars.borrow().get(*v).map_or(false, |x| x.is_none()) => {}
             Effect::SetVar(v, x) => var(ctx, *v).set(x.clone()),
             Effect::ModVar(v, d) => {
                 let d = *d;
@@ -488,6 +550,9 @@ fn run_effects_arg(ctx: &C, effs: &[Effect], arg: i64) {
                 let d = *d;
                 let old = var(ctx, *v).replace_with(move |x| V::Int(emod(to_int(x) + d, 7)));
                 log(format!("note replacewith v{} -> {:?}", v, old));
+            }
+            Effect::DropVar(v) => {
+                drop_var_handle(ctx, *v);
             }
             Effect::ReadObs(o) => {
                 let ob = ctx.observers.borrow()[*o].first().cloned();
@@ -508,7 +573,7 @@ fn run_effects_arg(ctx: &C, effs: &[Effect], arg: i64) {
             Effect::Unsub(o, t) => {
                 let ob = ctx.observers.borrow()[*o].first().cloned();
                 let tok = ctx.tokens.borrow().get(*t).copied();
-                if let (Some(ob), Some(tok)) = (ob, tok) {
+                if let (Some(ob), Some(tok)) = (ob.and_then(|o| o.as_v()), tok) {
                     let _ = ob.unsubscribe(tok);
                 }
             }
@@ -577,8 +642,22 @@ fn var(ctx: &C, v: usize) -> Var<V> {
     ctx.vars.borrow()[v].as_ref().expect("var handle dropped").clone()
 }
 
+fn drop_var_handle(ctx: &C, v: usize) -> bool {
+    let had = ctx.var_handles.borrow()[v];
+    if had == 0 {
+        false
+    } else {
+        ctx.var_handles.borrow_mut()[v] = had - 1;
+        if had == 1 {
+            let taken = ctx.vars.borrow_mut()[v].take();
+            drop(taken);
+        }
+        true
+    }
+}
+
 fn do_subscribe(ctx: &C, o: usize, h: usize) -> Result<usize, incremental::ObserverError> {
-    let ob = ctx.observers.borrow()[o].first().cloned().expect("observer handle gone");
+    let ob = ctx.observers.borrow()[o].first().and_then(|o| o.as_v()).expect("observer handle gone");
     let tok_ix = Rc::new(Cell::new(usize::MAX));
     let effs = ctx.defs.borrow().hdls.get(&h).cloned().unwrap_or_default();
     let ctx2 = ctx.clone();
@@ -932,8 +1011,9 @@ fn merge_fn(p: [i64; 5], e: MergeElement<&i64, &i64>) -> Option<i64> {
 }
 
 macro_rules! fm_on {
-    ($input:expr, $conv:expr, $back:expr, $p:expr, $mi:expr, $me:expr) => {{
+    ($ctx:expr, $input:expr, $conv:expr, $back:expr, $p:expr, $mi:expr, $me:expr) => {{
         let a = $input.map($conv);
+        register_typed($ctx, &a, $back);
         let (p, mi, me) = ($p, $mi, $me.clone());
         let o = a.incr_filter_mapi(move |k: &i64, v: &i64| {
             tick();
@@ -947,8 +1027,9 @@ macro_rules! fm_on {
 }
 
 macro_rules! fold_on {
-    ($input:expr, $conv:expr, $p:expr, $mi:expr, $me:expr, $rev:expr, $upd:expr) => {{
+    ($ctx:expr, $input:expr, $conv:expr, $back:expr, $p:expr, $mi:expr, $me:expr, $rev:expr, $upd:expr) => {{
         let a = $input.map($conv);
+        register_typed($ctx, &a, $back);
         let (p, mi) = ($p, $mi);
         let (me1, me2, me3) = ($me.clone(), $me.clone(), $me.clone());
         let add = move |acc: i64, k: &i64, v: &i64| {
@@ -995,18 +1076,18 @@ fn elab_mapop(ctx: &C, loc: &[usize], op: &MapOp) -> usize {
             let input = resolve(ctx, loc, x);
             let p = params(m);
             match ty.as_str() {
-                "bt" => fm_on!(input, |v: &V| as_btree(v), back_bt, p, *m, me),
-                "rc" => fm_on!(input, |v: &V| Rc::new(as_btree(v)), back_rc, p, *m, me),
-                _ => fm_on!(input, |v: &V| as_btree(v).into_iter().collect::<OrdMap<i64, i64>>(), back_ord, p, *m, me),
+                "bt" => fm_on!(ctx, input, |v: &V| as_btree(v), back_bt, p, *m, me),
+                "rc" => fm_on!(ctx, input, |v: &V| Rc::new(as_btree(v)), back_rc, p, *m, me),
+                _ => fm_on!(ctx, input, |v: &V| as_btree(v).into_iter().collect::<OrdMap<i64, i64>>(), back_ord, p, *m, me),
             }
         }
         MapOp::Fold(ty, m, rev, upd, x) => {
             let input = resolve(ctx, loc, x);
             let p = params(m);
             match ty.as_str() {
-                "bt" => fold_on!(input, |v: &V| as_btree(v), p, *m, me, *rev, *upd),
-                "rc" => fold_on!(input, |v: &V| Rc::new(as_btree(v)), p, *m, me, *rev, *upd),
-                _ => fold_on!(input, |v: &V| as_btree(v).into_iter().collect::<OrdMap<i64, i64>>(), p, *m, me, *rev, *upd),
+                "bt" => fold_on!(ctx, input, |v: &V| as_btree(v), back_bt, p, *m, me, *rev, *upd),
+                "rc" => fold_on!(ctx, input, |v: &V| Rc::new(as_btree(v)), back_rc, p, *m, me, *rev, *upd),
+                _ => fold_on!(ctx, input, |v: &V| as_btree(v).into_iter().collect::<OrdMap<i64, i64>>(), back_ord, p, *m, me, *rev, *upd),
             }
         }
         MapOp::Merge(ty, m, x, y) => {
@@ -1053,6 +1134,7 @@ fn elab_mapop(ctx: &C, loc: &[usize], op: &MapOp) -> usize {
             let p = params(m);
             let (mi, me2) = (*m, me.clone());
             let a = input.map(|v: &V| as_btree(v).into_iter().collect::<OrdMap<i64, i64>>());
+            register_typed(ctx, &a, back_ord);
             let o = a.incr_partition_mapi(move |k: &i64, v: &i64| {
                 tick();
                 let r = if emod(k + v, p[2]) == p[3] { Either::Left(*v) } else { Either::Right(emod(v + 1, 7)) };
@@ -1195,9 +1277,18 @@ fn panic_class(msg: &str) -> &'static str {
 fn action(ctx: &C, toks: &[&str]) -> String {
     match toks {
         ["observe", n] => {
-            let node = resolve(ctx, &[], &parse_opnd(n).unwrap());
-            let nix = node.verif_index();
-            let ob = node.observe();
+            let opnd = parse_opnd(n).unwrap();
+            let typed = match &opnd {
+                Opnd::Abs(k) => ctx.typed.borrow().get(k).cloned().map(|f| (*k, f)),
+                _ => None,
+            };
+            let (nix, ob) = match typed {
+                Some((k, f)) => (k, f()),
+                None => {
+                    let node = resolve(ctx, &[], &opnd);
+                    (node.verif_index(), Ob::V(node.observe()))
+                }
+            };
             let mut obs = ctx.observers.borrow_mut();
             obs.push(vec![ob]);
             log(format!("note observe o{} n{}", obs.len() - 1, nix));
@@ -1237,7 +1328,7 @@ fn action(ctx: &C, toks: &[&str]) -> String {
             Err(e) => format!("err {:?}", e),
         },
         ["unsubscribe", o, t] => {
-            let ob = ctx.observers.borrow()[idx("o", o).unwrap()].first().cloned();
+            let ob = ctx.observers.borrow()[idx("o", o).unwrap()].first().and_then(|o| o.as_v());
             let tok = ctx.tokens.borrow().get(idx("t", t).unwrap()).copied();
             match (ob, tok) {
                 (Some(ob), Some(tok)) => match ob.unsubscribe(tok) {
@@ -1282,17 +1373,10 @@ fn action(ctx: &C, toks: &[&str]) -> String {
         }
         ["get", v] => format!("ok {:?}", var(ctx, idx("v", v).unwrap()).get()),
         ["dropvar", v] => {
-            let v = idx("v", v).unwrap();
-            let had = ctx.var_handles.borrow()[v];
-            if had == 0 {
-                "noop".into()
-            } else {
-                ctx.var_handles.borrow_mut()[v] = had - 1;
-                if had == 1 {
-                    let taken = ctx.vars.borrow_mut()[v].take();
-                    drop(taken);
-                }
+            if drop_var_handle(ctx, idx("v", v).unwrap()) {
                 "ok".into()
+            } else {
+                "noop".into()
             }
         }
         ["adddep", e, c, cb] => {
@@ -1302,9 +1386,10 @@ fn action(ctx: &C, toks: &[&str]) -> String {
         }
         ["dropall"] => {
             // drop every handle, then the state: none of it may panic (a double panic aborts the process)
-            let obs: Vec<Vec<Observer<V>>> =
+            let obs: Vec<Vec<Ob>> =
                 ctx.observers.borrow_mut().iter_mut().map(std::mem::take).collect();
             drop(obs);
+            ctx.typed.borrow_mut().clear();
             let vars = std::mem::take(&mut *ctx.vars.borrow_mut());
             drop(vars);
             let ex = std::mem::take(&mut *ctx.experts.borrow_mut());
@@ -1434,6 +1519,7 @@ pub fn run() {
         vars: RefCell::new(vec![]),
         var_handles: RefCell::new(vec![]),
         observers: RefCell::new(vec![]),
+        typed: RefCell::new(HashMap::new()),
         tokens: RefCell::new(vec![]),
     });
     let out = std::io::stdout();
